@@ -46,15 +46,17 @@ def cases(draw, tier="quick"):
     m = M.RefEnum(spec)
     hists = draw(st.lists(S.histories(m.n), min_size=1, max_size=4))
     return {"spec": spec, "base": base, "hists": hists, "nrand": HISTS.get(tier, 20),
-            "seed": draw(st.integers(0, 2 ** 31))}
+            "derive_ord": S.chance(draw, 0.3), "seed": draw(st.integers(0, 2 ** 31))}
 
 
 def run_case(case):
     out = J.Outcome()
-    spec = case["spec"]
+    spec = dict(case["spec"])
+    if case.get("derive_ord"):
+        spec["derive_ord"] = True       # the user additionally derives Ord: max()/min() directly on the iterator
     m = M.RefEnum(spec)
     rnd = J.case_rng(case)
-    hists = [list(h) for h in case["hists"]] + [C.rand_history(rnd, m.n) for _ in range(case["nrand"])]
+    hists = [list(h) for h in case["hists"]] + [C.rand_history(rnd, m.n, ord_ok=bool(case.get("derive_ord"))) for _ in range(case["nrand"])]
     sc = E.Script()
     modules = []
     for k, (name, ov) in enumerate(mode_variants(m)):
